@@ -158,7 +158,15 @@ def str_slice(ex, st, base, lo, hi):
             (hi is None or isinstance(hi, VInt) and hi.conc() is not None):
         return [(st, VStr(c[(lo.conc() if lo is not None else None):(hi.conc() if hi is not None else None)],
                           isbytes=base.isbytes))]
-    raise Unsupported('string slice')
+    n = z3.Length(base.t)
+
+    def idx(v, default):
+        if v is None or isinstance(v, VNone):
+            return default
+        t = to_int(v)
+        return z3.If(t < 0, z3.If(t + n < 0, 0, t + n), z3.If(t > n, n, t))
+    a, b = idx(lo, z3.IntVal(0)), idx(hi, n)
+    return [(st, VStr(z3.SubString(base.t, a, z3.If(b > a, b - a, 0)), isbytes=base.isbytes))]
 
 
 def int_of_str(ex, st, v, rest, node=None):
